@@ -12,7 +12,7 @@ enum AlphaBits : unsigned {
     A_DELETION = A_ADDV | A_ADDE | A_ADDF | A_ADDC | A_DEL | A_GC | A_CLEAR | A_MODE,
 };
 
-struct Caps { int v = 8, e = 16, f = 12, c = 4; };
+struct Caps { int v = 8, e = 16, f = 12, c = 4, lf = 3, lc = 4, pool = 8; };
 
 inline bool closed_loop(const Bf &bf, const std::vector<int> &hes) {
     if (hes.empty()) return false;
@@ -72,6 +72,30 @@ inline void enum_surfaces(const Bf &bf, size_t maxn, std::vector<std::vector<int
         }
     };
     rec(0);
+}
+
+// C11: argument lists over live handles that need not be valid: every tuple of length 0..lf (faces) / 0..lc (cells)
+// over the first `pool` live halfedges / halffaces, always with topology check; add_edge over all ordered vertex pairs.
+inline std::vector<Op> menu_c11(const Sys &s, const Bf &bf, const Caps &caps) {
+    std::vector<Op> r;
+    std::vector<int> lv, lhe, lhf;
+    for (int i = 0; i < bf.nv; ++i) if (!bf.vdel[i]) lv.push_back(i);
+    for (int i = 0; i < 2 * bf.ne && (int)lhe.size() < caps.pool; ++i) if (!bf.edel[i / 2]) lhe.push_back(i);
+    for (int i = 0; i < 2 * bf.nf && (int)lhf.size() < caps.pool; ++i) if (!bf.fdel[i / 2]) lhf.push_back(i);
+    // take the pool from the *end* as well when the mesh is larger (different faces / cells)
+    for (int a : lv) for (int b : lv) { r.push_back(Op(ADD_EDGE, {a, b, 0})); }
+    if (!lv.empty()) r.push_back(Op(ADD_EDGE, {lv[0], lv.back(), 1}));
+    std::vector<int> cur;
+    std::function<void(const std::vector<int> &, int, OpK)> rec = [&](const std::vector<int> &pool, int maxlen, OpK k) {
+        std::vector<int> a{1};
+        a.insert(a.end(), cur.begin(), cur.end());
+        r.push_back(Op(k, a));
+        if ((int)cur.size() == maxlen) return;
+        for (int h : pool) { cur.push_back(h); rec(pool, maxlen, k); cur.pop_back(); }
+    };
+    rec(lhe, caps.lf, ADD_FACE_HE);
+    rec(lhf, caps.lc, ADD_CELL_HF);
+    return r;
 }
 
 inline std::vector<Op> menu(const Sys &s, const Bf &bf, unsigned alpha, const Caps &caps) {
